@@ -2,30 +2,46 @@
 # run.sh <id> quick|thorough        run the check of one property against /repo's working tree
 # run.sh <id> --replay <path>       re-execute one recorded case against the current tree
 # Exit 0: held on everything explored; 1: VIOLATION line(s) printed; 2: BROKEN-CHECK.
+#
+# Development only: VERIF_REPO=<worktree> builds against a scratch worktree instead of /repo and
+# VERIF_OUT=<dir> sends evidence/replays/scratch there (so committed evidence is not touched).
 set -u
 cd "$(dirname "$0")"
 export VERIF_ROOT="$PWD"
 export GOFLAGS=-mod=mod GOPROXY=off GOSUMDB=off GOTOOLCHAIN=local
 id="${1:?property id}"
 mode="${2:?quick|thorough|--replay}"
-mkdir -p bin evidence
-cp -f /repo/go.sum harness/go.sum
+repo="${VERIF_REPO:-/repo}"
+out="${VERIF_OUT:-$PWD}"
+mkdir -p bin "$out/evidence"
+
+hdir=harness
+tag=""
+if [ "$repo" != "/repo" ]; then
+  tag="-$(echo "$repo" | md5sum | cut -c1-8)"
+  hdir="$out/.work/harness$tag"
+  mkdir -p "$hdir"
+  rsync -a --delete harness/ "$hdir/"
+  (cd "$hdir" && go mod edit -replace "github.com/nlnwa/whatwg-url=$repo")
+fi
+cp -f "$repo/go.sum" "$hdir/go.sum"
 
 race=""
-bin="bin/vcheck"
+bin="$PWD/bin/vcheck$tag"
 if [ "$id" = "C14" ]; then
   race="-race"
-  bin="bin/vcheck-race"
+  bin="$PWD/bin/vcheck-race$tag"
 fi
-# Always rebuild: the replace directive points at /repo, so the library is recompiled from
-# its current working tree (the build cache is keyed on file contents).
-if ! (cd harness && go build $race -tags verif -o "../$bin" ./cmd/vcheck) >".build.$id.log" 2>&1; then
-  cat ".build.$id.log"
-  echo "BROKEN-CHECK property=$id the harness does not build against /repo's working tree"
-  rm -f ".build.$id.log"
+# Always rebuild: the replace directive points at the repository, so the library is recompiled
+# from its current working tree (the build cache is keyed on file contents).
+log="$out/.build.$id$tag.log"
+if ! (cd "$hdir" && go build $race -tags verif -o "$bin" ./cmd/vcheck) >"$log" 2>&1; then
+  cat "$log"
+  echo "BROKEN-CHECK property=$id the harness does not build against the repository's working tree"
+  rm -f "$log"
   exit 2
 fi
-rm -f ".build.$id.log"
+rm -f "$log"
 
 if [ "$mode" = "--replay" ]; then
   exec "$bin" replay "$id" "${3:?replay path}"
